@@ -186,6 +186,12 @@ Lemma finding_24_status : finding_status 24 wit_finding_24.
 Proof. apply finding_status_by_check. vm_compute. reflexivity. Qed.
 Lemma finding_25_status : finding_status 25 wit_finding_25.
 Proof. apply finding_status_by_check. vm_compute. reflexivity. Qed.
+Lemma finding_26_status : finding_status 26 wit_finding_26.
+Proof. apply finding_status_by_check. vm_compute. reflexivity. Qed.
+Lemma finding_27_status : finding_status 27 wit_finding_27.
+Proof. apply finding_status_by_check. vm_compute. reflexivity. Qed.
+Lemma finding_28_status : finding_status 28 wit_finding_28.
+Proof. apply finding_status_by_check. vm_compute. reflexivity. Qed.
 
 (* ---- non-vacuity: the documented channel IS reached, inside the guard, in both modes ----------------- *)
 Definition channel_reached (x : bool) : Prop :=
